@@ -16,11 +16,11 @@ Roots == [ rmap |-> M(<<P(S(<<"k">>), S(<<"m", "v">>)), P(S(<<"n">>), I(5)), P(S
            rint |-> I(5),
            rstr |-> S(<<"a", "b">>),
            rbool |-> B(TRUE),
-           fsum |-> Func("sum"), fcat |-> Func("cat"), fanyv |-> Func("anyv"), fctx |-> Func("ctx"), fctxv |-> Func("ctxv"), fptr |-> Func("ptrarg"), fnilv |-> Func("nilv"),
+           fsum |-> Func("sum"), fcat |-> Func("cat"), fanyv |-> Func("anyv"), fctx |-> Func("ctx"), fctxv |-> Func("ctxv"), fptr |-> Func("ptrarg"), fnilv |-> Func("nilv"), fstrer |-> Func("strer"), fstrerv |-> Func("strerv"),
            remb |-> V("struct", 1, <<>>, <<P(S(<<"F">>), S(<<"e", "v">>))>>),       \* embeds a nil pointer: the fields that would promote (Q) do not exist
            fnil |-> Func("nilres"), fm1 |-> Func("M1"), fme |-> Func("ME") ]
 RootNames == <<"rmap", "rmapa", "rmapi", "rlist", "rarr", "rstruct", "rptr", "rnilptr", "rint", "rstr", "rbool", "rnope",
-               "fsum", "fcat", "fanyv", "fctx", "fctxv", "fnil", "fm1", "fme", "fptr", "fnilv", "remb">>
+               "fsum", "fcat", "fanyv", "fctx", "fctxv", "fnil", "fm1", "fme", "fptr", "fnilv", "remb", "fstrer", "fstrerv">>
 
 NoCall(st) == st @@ [call |-> FALSE, args |-> <<>>]
 WithCall(st, a) == st @@ [call |-> TRUE, args |-> a]
@@ -30,9 +30,9 @@ SubS(e) == [t |-> "sub", e |-> e]
 PlainSteps == << NameS("F"), NameS("G"), NameS("N"), NameS("h"), NameS("nope"), NameS("k"), NameS("n"), NameS("l"), NameS("st"), NameS("z"), NameS("np"),
                  NameS("P"), NameS("Fn"), NameS("Q"), NameS("M0"), NameS("MV"), NameS("ME"), NameS("PM0"),
                  IdxS(0), IdxS(1), IdxS(2), IdxS(5),
-                 SubS(I(0)), SubS(I(1)), SubS(I(9)), SubS(I(0 - 1)), SubS(S(<<"k">>)), SubS(S(<<"F">>)), SubS(S(<<"h">>)), SubS(S(<<"z", "z">>)), SubS(Nil) >>
+                 SubS(I(0)), SubS(I(1)), SubS(I(9)), SubS(I(0 - 1)), SubS(S(<<"k">>)), SubS(S(<<"F">>)), SubS(S(<<"h">>)), SubS(S(<<"z", "z">>)), SubS(Nil), SubS(Roots.rlist), SubS(Roots.rmap) >>
 ArgLists == << <<>>, <<I(1)>>, <<I(1), I(2)>>, <<S(<<"a">>), S(<<"b">>)>>, <<S(<<"a">>)>>, <<Nil>>, <<I(1), S(<<"x">>)>>,
-              <<I(1), I(2), I(3)>>, <<I(1), I(2), I(3), I(4)>>, <<I(5), I(4), I(3), I(2), I(1)>>, <<I(1), I(2), I(3), I(4), I(5), I(6), I(7)>>, <<I(1), I(2), S(<<"x">>)>>, <<NilPtr>>, <<Ptr(TheStruct)>> >>
+              <<I(1), I(2), I(3)>>, <<I(1), I(2), I(3), I(4)>>, <<I(5), I(4), I(3), I(2), I(1)>>, <<I(1), I(2), I(3), I(4), I(5), I(6), I(7)>>, <<I(1), I(2), S(<<"x">>)>>, <<NilPtr>>, <<Ptr(TheStruct)>>, <<Nil, Nil>> >>
 CallSteps == << NameS("M0"), NameS("M1"), NameS("MV"), NameS("PM0"), NameS("Fn"), NameS("F"), NameS("nope") >>
 
 \* subscripts that are names themselves (the harness writes them out: rmap[fm1("a")]): failing ones, empty ones, usable ones
